@@ -3,7 +3,7 @@
     positive, ascii, string stay the Coq datatypes. *)
 From Coq Require Import Extraction ExtrOcamlBasic.
 From Coq Require Import List ZArith NArith.
-From Kismet Require Import Gen.Constants Pure.SecondChance Pure.Trigger Pure.Hash FS.Fs FS.Prog Conc.Pool Ops.Ops Ops.Client Spec.StackSpec.
+From Kismet Require Import Gen.Constants Pure.SecondChance Pure.Trigger Pure.Hash FS.Fs FS.Prog Conc.Pool Ops.Ops Ops.Client Spec.StackSpec Spec.CountMon.
 
 Definition plain_scale : N := Constants.PLAIN_MAINTENANCE_SCALE.
 Definition sharded_scale : N := Constants.SHARDED_MAINTENANCE_SCALE.
@@ -19,4 +19,4 @@ Extraction "../ocaml/gen/kmodel.ml"
   cache_get cache_touch cache_set cache_put cache_write_temp get_or_update ensure ro_get ro_touch
   f_get f_touch f_set f_put f_temp_dir prune
   client_set_path client_set_temp client_front_write client_populate client_judge chk_byteeq chk_panic chk_count
-  stage_path stage_temp bind spec run_crash settle slot finished.
+  stage_path stage_temp bind spec run_crash settle slot finished stack_get_budget stack_touch_budget stack_write_budget.
